@@ -220,6 +220,11 @@ func (u *Universe) verifyContract(c *Contract, variant map[string]string) (res *
 		st.assume(pre.boolTerm(pre.expr(r.Expr)))
 	}
 	x.assumeTheories(st, c.Theories)
+	if len(c.Uses) > 0 {
+		// requires-free lemmas and axioms named in use clauses are also instantiated at entry (over
+		// the parameters); the others only at the return points
+		x.applyUses(x.entryEnv(st), c.Uses, "entry")
+	}
 	x.propagateConsts(st)
 	x.entry = st.fork()
 	// vacuity guard: the precondition is satisfiable
@@ -371,6 +376,22 @@ type modRange struct {
 
 // checkFrame: every allocation reachable at entry is unchanged outside the modifies clauses.
 func (x *Exec) checkFrame(st *State) {
+	seenB := map[string]bool{}
+	for i, b := range st.borrowed {
+		cell, ok := st.mem[b.alloc]
+		if !ok {
+			continue
+		}
+		now, ok := navigate(cell, b.path).(ArrayV)
+		key := fmt.Sprintf("%d.%s", b.alloc, strings.Join(b.path, "."))
+		if !ok || now.T == b.arr || seenB[key] {
+			continue
+		}
+		seenB[key] = true
+		j := x.fresh("j", IntS)
+		goal := Forall([]*Term{j}, Implies(And(Le(b.off, j), Lt(j, Add(b.off, b.cap))), Eq(Select(now.T, j), Select(b.arr, j))))
+		x.addObl("frame", fmt.Sprintf("frame.borrowed.%d.%s", i+1, b.where), st, goal, x.C.Where)
+	}
 	if x.C.NoFrame {
 		return
 	}
